@@ -6,7 +6,7 @@ from fractions import Fraction
 
 from ..keval import KEval, Ref, Cond, Const, Top, SelfObj
 from ..poly import Poly, ZERO, ONE
-from ..forms import value_poly, short
+from ..forms import value_poly, short, expr_poly
 from .. import wire, geom
 from ..model import norm_text, AnchorMissing
 from ..controls import Control
@@ -213,6 +213,55 @@ def derived_rule(ctx, p):
     ctx.ob(rule, mc.key + ":centre", len(rets) == 1 and norm_text(rets[0].value) == "grid_2d_util.grid_2d_centre_from(grid_2d_slim=grid)", where=mc, node=mc.node, construct=norm_text(rets[0].value) if rets else "", message="the mask centre must be the centre of the mask's own coordinate grid")
 
 
+_EXT = __import__("re").compile(r"^<(?:np|numpy)\.(?:a?min|a?max|nanmin|nanmax)\((\w+)\[:, (\d)\]\)>$")
+
+
+def extrema_rule(ctx, p):
+    """geometry derived from the extrema of a coordinate grid must move with the grid: origin shifts by d, pixel scales do not change"""
+    rule = "C12.covariance"
+    table = geom.origin_table(p)
+    n = 0
+    for f in p.all_functions():
+        if f.module.name.startswith(("autoarray.plot", "autoarray.fixtures")) or ".mock" in f.module.name:
+            continue
+        src_txt = None
+        for c in f.calls():
+            tg = p.resolve_call(c, f)
+            if not tg or tg[0].key not in table:
+                continue
+            b, _ = p.bind(c, tg[0])
+            o = b.get(table[tg[0].key])
+            ps = b.get("pixel_scales")
+            res = lambda nm: (lambda r: None if r is nm else r)(wire.resolve_local(f, nm, depth=1))
+            o = wire.resolve_local(f, o) if o is not None else None
+            ps = wire.resolve_local(f, ps) if ps is not None else None
+            if not isinstance(o, ast.Tuple) or len(o.elts) != 2:
+                continue
+            polys = [expr_poly(e, res) for e in o.elts]
+            ext = {a for pl in polys for a in pl.all_atoms() if a[0] == "s" and _EXT.match(a[1])}
+            if not ext:
+                continue
+            n += 1
+            d = [Poly.sym("d0"), Poly.sym("d1")]
+
+            def shift(pl):
+                return pl.subst(lambda at: (Poly.atom(at) + d[int(_EXT.match(at[1]).group(2))]) if (at[0] == "s" and _EXT.match(at[1])) else None)
+            ok = all(shift(polys[k]) - polys[k] == d[k] for k in (0, 1))
+            det = f"origin = ({short(polys[0], 80)}, {short(polys[1], 80)})"
+            if ok and isinstance(ps, ast.Tuple) and len(ps.elts) == 2:
+                pp = []
+                for e in ps.elts:
+                    while isinstance(e, ast.Call) and norm_text(e.func) == "float" and e.args:
+                        e = e.args[0]
+                    pp.append(expr_poly(e, res))
+                ok = all(shift(q) - q == ZERO for q in pp)
+                det += f"; pixel_scales = ({short(pp[0], 60)}, {short(pp[1], 60)})"
+            ctx.ob(rule, f"{f.key}: geometry from grid extrema", ok, where=f, node=c, construct=det,
+                   message="a box built from the extrema of a coordinate grid must translate with the grid: its centre shifts by exactly d (component k from the extrema of column k) and its size does not depend on d; "
+                           "a relative margin (min * (1 + buffer)) makes the box depend on where the grid sits")
+    ctx.require_count(rule, "geometries derived from grid extrema", n, 1)
+
+
 def run(ctx):
     p = ctx.p
     K = KEval(p)
@@ -222,6 +271,7 @@ def run(ctx):
     ctx.rule("C12.derived", "derived objects named by the property (mask centre, derived grids, sub-grids, mesh-pixel counts, radial projections) re-pass the parent's shape, scales and origin")
     forwarding_rule(ctx, p)
     covariance_rule(ctx, p, K)
+    extrema_rule(ctx, p)
     derived_rule(ctx, p)
 
 
@@ -237,5 +287,7 @@ CONTROLS = [
     Control("simulator drops the image origin again (original defect)", "autoarray/dataset/imaging/simulator.py", in_func("SimulatorImaging.via_image_from", "            pixel_scales=image.pixel_scales,\n            origin=image.origin,\n        )\n\n        image = Array2D(values=image, mask=mask)", "            pixel_scales=image.pixel_scales,\n        )\n\n        image = Array2D(values=image, mask=mask)"), "C12.forward"),
     Control("twin: subtracted origin with reordered terms", _G, in_func("Grid2D.subtracted_from", "origin=(self.origin[0] - offset[0], self.origin[1] - offset[1]),", "origin=(-offset[0] + self.origin[0], -offset[1] + self.origin[1]),"), None, twin=True),
     Control("twin: padded grid keyword order swapped", _G, in_func("Grid2D.padded_grid_from", "            pixel_scales=self.mask.pixel_scales,\n            origin=self.mask.origin,\n", "            origin=self.mask.origin,\n            pixel_scales=self.mask.pixel_scales,\n"), None, twin=True),
+    Control("mesh box grown by a relative margin (seed C12/4)", "autoarray/structures/mesh/rectangular_2d.py", in_func("Mesh2DRectangular.overlay_grid", "y_min = np.min(grid[:, 0]) - buffer", "y_min = np.min(grid[:, 0]) * (1.0 + buffer)"), "C12.covariance"),
+    Control("mesh box centre uses the x extrema for y", "autoarray/structures/mesh/rectangular_2d.py", in_func("Mesh2DRectangular.overlay_grid", "y_max = np.max(grid[:, 0]) + buffer", "y_max = np.max(grid[:, 1]) + buffer"), "C12.covariance"),
     Control("border relocator sub-grid at origin 0", "autoarray/inversion/pixelization/border_relocator.py", in_func("BorderRelocator.sub_grid", "            origin=self.mask.origin,\n", ""), "C12.forward"),
 ]
